@@ -38,6 +38,11 @@ type G struct {
 	// Long: the next list or map value generated gets more than 131,072
 	// elements (once per batch).
 	Long bool
+	// Narrow > 0: a structurally poor stream - no resource or scope
+	// attributes, and every attribute value of one type (1 string, 2 int,
+	// 3 double, 4 bool) - so that streams differ in which optional columns
+	// and attribute records they have at all.
+	Narrow int
 	// Bare forbids attributes, events, links and exemplars altogether, so that
 	// the main record has no id column and no related record exists.
 	Bare bool
@@ -137,7 +142,9 @@ func (g *G) value(v pcommon.Value, depth int) {
 		}
 	case 7:
 		m := v.SetEmptyMap()
-		if g.Long {
+		// (a long map is rarer than a long list: pcommon.Map inserts scan for the
+		// key, so decoding 131,073 entries takes some twenty seconds)
+		if g.Long && g.p(1, 4) {
 			g.Long = false
 			n := 131073 + g.d(3)
 			m.EnsureCapacity(n)
@@ -167,6 +174,23 @@ func (g *G) deep(v pcommon.Value, n int) {
 
 func (g *G) attrs(m pcommon.Map) {
 	if g.Bare || (g.Plain && !g.p(1, 8)) {
+		return
+	}
+	if g.Narrow > 0 {
+		n := 1 + g.d(2)
+		for i := 0; i < n; i++ {
+			k := []string{"a", "b"}[i]
+			switch g.Narrow {
+			case 1:
+				m.PutStr(k, g.str())
+			case 2:
+				m.PutInt(k, pick(g, intPool))
+			case 3:
+				m.PutDouble(k, pick(g, dblPool))
+			default:
+				m.PutBool(k, g.p(1, 2))
+			}
+		}
 		return
 	}
 	n := g.w(3, 4, 3, 2, 1)
@@ -233,6 +257,9 @@ func (g *G) resource(r pcommon.Resource) {
 		g.attrs(r.Attributes())
 		r.SetDroppedAttributesCount(pick(g, u32Pool))
 	}
+	if g.Narrow > 0 {
+		r.Attributes().Clear()
+	}
 }
 
 func (g *G) scope(s pcommon.InstrumentationScope) {
@@ -267,6 +294,9 @@ func (g *G) scope(s pcommon.InstrumentationScope) {
 		s.SetVersion(g.str())
 		g.attrs(s.Attributes())
 		s.SetDroppedAttributesCount(pick(g, u32Pool))
+	}
+	if g.Narrow > 0 {
+		s.Attributes().Clear()
 	}
 }
 
